@@ -146,4 +146,14 @@ PLAN = {
         quick=[dict(test="TestC13", cases=960, shards=16, timeout=900)],
         thorough=[dict(test="TestC13", cases=32000, shards=16, timeout=3400, shrink=120)],
     ),
+    "C14": dict(
+        level="exploration",
+        rule=("source portfolios (0..4 denominations, delegations on 0..3 validators, 0..3 unbonding entries at distinct times some of which share their completion slice with another delegator's entries, 0..2 redelegations, accrued rewards), source kinds (normal, no public key, eth key, validator operator, already migrated), "
+              "targets (fresh, with balance, with delegation, with unbonding, validator operator, already migrated), governance involvement of source or target as proposer / depositor / voter of a proposal in its deposit period / voting period / already ended, signatures (right, other key, over (target, source), over another source, garbage), "
+              "0..4 later time steps (1 h .. 600 h, real staking end blocker) and a second migration (same source, or another source onto the same target). Oracle: acceptance <=> all stated conditions; on acceptance target-after == source-before (+) target-before (balances, shares, unbonding and redelegation entries, pending rewards), source empty incl. the maturation queues, totals unchanged, crisis invariants, matured funds paid to the target, target can undelegate, second migration refused. "
+              "non-trivial = portfolio with an unbonding or redelegation entry, or governance involvement"),
+        assumptions=["an account's public key is set directly on the account (as after its first transaction)"],
+        quick=[dict(test="TestC14", cases=960, shards=16, timeout=900)],
+        thorough=[dict(test="TestC14", cases=32000, shards=16, timeout=3400, shrink=120)],
+    ),
 }
